@@ -3,7 +3,7 @@ import BoltonsVerif.C20.Model
 /-
 C20 line protocol.  One line = one whole history over `ni` counters (all created
 up front with the same threshold; counter 0 is current at the start):
-    <w> <nk> <op> <op> ...            one counter
+    <w> <nk> <op> <op> ...            one counter   (`<w>` may be `<p>/<q>`: exact threshold, see `parseW?`)
     <w> <nk>x<ni> <op> <op> ...       ni counters
   a<k>                  add(k)                                   on the current counter
   u<k>,<k>,...          update(iterable of keys)                 (`u-` = empty)
@@ -17,6 +17,10 @@ up front with the same threshold; counter 0 is current at the start):
 Output: one `;`-separated record per op except `i`.  After a mutator the record is
 the full dump of every reader of EVERY counter (` | `-separated; so that an effect on
 a counter that was not addressed shows); after `q<n>` it is the returned list.
+`most_common` results are printed canonically (`canon`: ties in key order; `canonTop`: the keys with the
+smallest returned count are printed as `*`) - the statement fixes the count order only.
+`R<c>/<t>` in a dump is get_commonality() as an exact ratio, `R-` on a counter without additions (the
+harness prints `R-` there whatever the code does: outside the statement).
 -/
 namespace C20.Driver
 open BV C20
@@ -24,15 +28,23 @@ open BV C20
 def showPairs (l : List (Nat × Nat)) : String :=
   if l.isEmpty then "-" else ",".intercalate (l.map fun p => s!"{p.1}:{p.2}")
 
+def showTop (l : List (Option Nat × Nat)) : String :=
+  if l.isEmpty then "-" else ",".intercalate (l.map fun p => match p.1 with
+    | some k => s!"{k}:{p.2}"
+    | none => s!"*:{p.2}")
+
 def dump (nk : Nat) (s : TC Nat) : String :=
   let ks := List.range nk
   " ".intercalate [
     s!"T{s.total}", s!"I{showPairs s.items}", s!"K{showNats s.keys}", s!"V{showNats s.values}",
     s!"L{s.len}", s!"C{s.commonCount}", s!"U{s.uncommonCount}",
-    s!"M{showPairs (s.mostCommon none)}",
+    s!"M{showPairs (canon (s.mostCommon none))}",
     s!"G{showNats (ks.map s.get)}",
     s!"H{showNats (ks.map fun k => if s.contains k then 1 else 0)}",
-    s!"E{showNats s.elements}"]
+    s!"E{showNats s.elements}",
+    match s.commonality with
+    | some (c, t) => s!"R{c}/{t}"
+    | none => "R-"]
 
 def parsePairs? (s : String) : Option (List (Nat × Nat)) :=
   if s = "-" ∨ s = "" then some [] else
@@ -76,7 +88,7 @@ def stepTok (w nk : Nat) (st : St) (tok : String) : Option (St × Option String)
   | 't' => rest.toNat?.bind fun j => st.insts[j]?.bind fun src => mutate nk st (·.absorb src)
   | 'n' => if rest = "" then mutate nk st (fun _ => TC.init w) else none
   | 'i' => rest.toNat?.bind fun j => if j < st.insts.length then some ({ st with cur := j }, none) else none
-  | 'q' => rest.toInt?.bind fun n => st.get.map fun s => (st, some s!"Q{showPairs (s.mostCommon (some n))}")
+  | 'q' => rest.toInt?.bind fun n => st.get.map fun s => (st, some s!"Q{showTop (canonTop (s.mostCommon (some n)))}")
   | _ => none
 
 def parseNk? (s : String) : Option (Nat × Nat) :=
@@ -87,10 +99,20 @@ def parseNk? (s : String) : Option (Nat × Nat) :=
     | _, _ => none
   | _ => none
 
+/-- first token: the bucket width `<w>` (float thresholds: computed by the harness) or an exact threshold
+    `<p>/<q>` (Fraction / Decimal), from which the model's constructor derives the width -/
+def parseW? (s : String) : Option Nat :=
+  match splitOnChar s '/' with
+  | [a] => a.toNat?
+  | [a, b] => match a.toNat?, b.toNat? with
+    | some p, some q => (TC.ofThreshold p q : Option (TC Nat)).map (·.w)
+    | _, _ => none
+  | _ => none
+
 def handle (line : String) : String :=
   match words line with
   | w :: nk :: toks =>
-    match w.toNat?, parseNk? nk with
+    match parseW? w, parseNk? nk with
     | some w, some (nk, ni) =>
       if w = 0 then "bad-op" else
       let rec go (st : St) (toks : List String) (acc : List String) : Option (List String) :=
